@@ -10,7 +10,7 @@ from .. import mon
 from ..worker import guard, CaseTimeout
 
 PROPERTY = "C04"
-RULE = ("strings from 4 sources — (1) named rule-violation operators applied to valid derivations (blank space where S is not allowed, "
+RULE = ("strings from 5 sources (the 5th: calls spelled with 30 function names outside the grammar — upper case, leading underscore or digit, non-ASCII, punctuation — on an environment where functions ARE registered under exactly those names, in 8 positions) and 4 on the default environment — (1) named rule-violation operators applied to valid derivations (blank space where S is not allowed, "
         "leading zeros / -0 in int positions, malformed frac/exp, doubled or dangling operators, '!' or parentheses around comparands, "
         "chained comparisons, missing/extra commas and colons, unbalanced brackets, text before '$' / after the last segment, upper-case "
         "keywords, illegal shorthand characters, bad escapes, non-RFC blank characters); (2) every single-character edit "
@@ -207,6 +207,7 @@ def run_shard(spec, rec):
                 t = "".join(R.choice(EDIT_ALPHABET) for _ in range(R.randint(1, 30)))
                 handle(jp, rec, R, R.choice(["", "$"]) + t, "garbage", lib, spec["classify_rejected"])
                 n += 1
+        custom_env_battery(rec, R, lib)
     else:
         k = 0
         for L in range(0, spec["maxlen"] + 1):
@@ -223,6 +224,45 @@ def run_shard(spec, rec):
         for _ in range(spec.get("sample4", 0)):
             seq = [R.choice(ALPHABET28) for _ in range(R.choice([4, 4, 5, 6]))]
             handle(jp, rec, R, R.choice(["", " "]).join(seq), "tokens-sampled", lib, spec["classify_rejected"])
+
+
+BAD_FUNCTION_NAMES = ["startsWith", "StartsWith", "_starts", "d\u00e9bute", "F", "FOO", "f-g", "1f", "f.g", "\u00e9", "f g", "f\u00e9", "f$", "f:", "a.b", "f'", "\U0001f600", "fF", "f\u0131",
+                      "length ", " length", "Length", "coUnt", "f\u00b2", "f\u0663", "", "f*", "@f", "$f", "f!"]
+
+
+def custom_env_battery(rec, R, lib):
+    """An environment on which functions are registered under names the grammar does not allow (function-name =
+    LCALPHA *(LCALPHA / "_" / DIGIT)): a call spelled with such a name is outside the grammar and must still be rejected."""
+    from jsonpath_rfc9535 import JSONPathEnvironment
+    reg = {}
+    for nm in BAD_FUNCTION_NAMES + ["starts_with", "f1", "a_"]:
+        reg[nm] = ((mon.V,), mon.L, lambda *a: True)
+        reg[nm + "2"] = ((mon.V, mon.V), mon.V, lambda *a: 1)
+    env, _ = mon.make_env(reg)
+    for nm in BAD_FUNCTION_NAMES:
+        for tmpl in ("$[?%s(@.a)]", "$[?!%s(@.a)]", "$[?%s(1) && @.b]", "$[?%s2(@.a, 'x') == 1]", "$[?@[?%s(@)]]", "$[?count(@[?%s(@.a)]) > 1]", "$[?length(%s2(1, 2)) > 1]", "$[? %s (@.a)]"):
+            text = tmpl % ((nm,) if tmpl.count("%s") == 1 else (nm, nm))
+            if "%s2" in tmpl:
+                text = tmpl.replace("%s2", nm + "2")
+            if any(0xD800 <= ord(c) <= 0xDFFF for c in text):
+                continue
+            rec.monitor("recogniser")
+            if lib.member(text):
+                rec.feat("custom-env:grammatical")   # e.g. the empty name turns the call into a parenthesised expression
+                continue
+            o = mon.observe(env.compile, text)
+            rec.monitor("M-compile")
+            rec.case(("custom-env", text), True)
+            rec.feat("custom-env:" + ("rejected" if o[0] != "ok" else "ACCEPTED"))
+            if o[0] == "ok":
+                rec.violation("accepted:custom-function-name", {"query": text, "registered_function_name": nm if "%s2" not in tmpl else nm + "2", "source": "custom-env",
+                                                               "compiled_to": str(o[1])})
+    # sanity of the battery itself: grammatical names on the same environment are accepted
+    for text in ("$[?starts_with(@.a)]", "$[?f1(@.a)]", "$[?a_2(1, 2) == 1]"):
+        o = mon.observe(env.compile, text)
+        if o[0] != "ok":
+            rec.note("BATTERY-SLIP: %r not accepted on the custom environment: %s" % (text, mon.describe_outcome(o)))
+            rec.feat("generator-slip")
 
 
 def finish(m, tier):
